@@ -219,7 +219,7 @@ def check_property(prop, tier, seed, learn=False):
         from . import replay
         bud = standin["quick_s"] if tier == "quick" else standin["thorough_s"]
         path, ran = replay.cross_check(prop, seed, budget=bud, tag="bounded")
-        bounded.append({"what": standin["what"], "bound": "%d s of random histories, seed %d (%s)" % (bud, seed, standin["searcher"]),
+        bounded.append({"what": standin["what"], "bound": "random histories for 0.8 * %d s (at most %d histories), seed %d (%s)" % (bud, 400 * bud, seed, standin["searcher"]),
                         "counted_as_proof": False})
         if path:
             viol = 1
